@@ -8,19 +8,24 @@ LEVEL_TEXT = ('SphereLattice.tla gives the exact integer answer of the inverse p
               'antipodal pairs with relaxed azimuths); GeodSym.tla models the symmetry group (exchange, two reflections, longitude shifts) with the '
               'documented output maps and TLC checks the homomorphism property on its Cayley graph.  Lattice vectors are replayed on GenInverse and '
               'InverseLine of the three solver kinds; on the ellipsoid family closure through the direct problem, shortest-path bounds, solver '
-              'agreement and every group element are validated on seeded samples of every regime of the inverse problem.')
+              'agreement and every group element are validated on seeded samples of every regime of the inverse problem.  The lattice is replayed '
+              'on two sphere radii and has the pairs lat2 = +-lat1 = +-45, lon12 = +-90 (a12 = 60 / 120, azimuths +-atan(sqrt 2)); closure is also '
+              'taken through the returned arc length and through InverseLine; all seven Inverse overloads of the three classes must write what '
+              'GenInverse writes (GeodOverloads.tla); the exact solver is judged by itself on b/a = 2^-6..2^6.')
 DESIGN_REF = 'DESIGN.md section 4, C02'
 LEVEL_NOTE = ('Trusted: TLC, SphereLattice.tla, GeodSym.tla. Azimuth laws are not stated for (nearly) coincident, antipodal and both-polar pairs, where '
               'the documentation lists the non-uniqueness; distance laws are stated everywhere.')
 TECHNIQUE = 'TLA+ lattice model + symmetry-group model + TLC enumeration, spec-to-code replay, TLC trace validation of laws'
-RULE = ('lattice inverse problems enumerated by TLC, each replayed on 6 solver/interface configurations; seeded random inverse problems in 10 regimes '
-        '(generic, meridional, equatorial, short 1e-15..1e-5 deg, nearly antipodal, polar, both poles, antipodal, coincident, unreduced longitudes) '
-        'x 9 flattenings, each with the 8 group elements from GeodSym. distinct_nontrivial = lattice vectors.')
-TRUSTED = ['TLC', 'SphereLattice.tla', 'GeodSym.tla', 'drv_geod.cpp']
+RULE = ('lattice inverse problems enumerated by TLC (sphere radius rk in {1, 2}), each replayed on 6 solver/interface configurations; seeded random '
+        'inverse problems in 13 regimes (generic, meridional, equatorial, short 1e-15..1e-5 deg, nearly antipodal, polar, both poles, antipodal, '
+        'coincident, unreduced longitudes, near-polar short, mm..m) x 9 flattenings (il) and in the regimes same parallel, mirror parallels, '
+        'equatorial and nearly equatorial around the break-away longitude, plus all regimes on |f| = 0.05, 0.1 and b/a = 2^k (ix), each with the '
+        '8 group elements from GeodSym. distinct_nontrivial = lattice vectors.')
+TRUSTED = ['TLC', 'SphereLattice.tla', 'GeodSym.tla', 'GeodOverloads.tla', 'drv_geod.cpp']
 
 
 def run(ctx):
-    geod_common.run(ctx, 'C02', ['inv'], [('il', 12000, 600000)])
+    geod_common.run(ctx, 'C02', ['inv'], [('il', 12000, 600000), ('ix', 6000, 200000)])
     return ctx.finish(RULE, TRUSTED)
 
 
